@@ -22,6 +22,21 @@ def fold(terms):
 def vcs(B):
     per_point(B)
     plane_estimation(B)
+    constructor(B)
+
+
+def constructor(B):
+    """the neighbourhood size used is the one asked for (k in 3..30 in the property's quantifier)"""
+    P = 'romea::core::NormalAndCurvatureEstimation<Eigen::Matrix<double, 3, 1, 0>>'
+    B.function('NCE3__ctor', P, 'NormalAndCurvatureEstimation', nparams=1)
+    B.extract()
+    rec = [r for r in B.prog.records if r.startswith('NormalAndCurvatureEstimation')][0]
+    obj = B.sx.arbitrary_value(('struct', rec), 'ctor_prior')
+    k = B.int('k_asked')
+    B.call('NCE3__ctor', obj, k)
+    B.take_obligations()
+    B.vc('constructor.number_of_neighbours_is_the_one_asked_for', app('=', obj['numberOfNeighborPoints_'], k), [app('<=', '3', k), app('<=', k, '30')], functions=['NCE3__ctor'],
+         bounded='NormalAndCurvatureEstimation<Eigen::Vector3d> constructor (no bound on its argument beyond the quantifier 3..30; listed with the bounded stand-ins of this check)')
 
 
 def plane_estimation(B):
